@@ -143,6 +143,9 @@ def run_config(job):
                 chain.add_site_hamiltonian(i, h0 * (1 + 0.1 * i))
             chain.add_nn_hamiltonian(0, sz, sz * 0.7)
             chain.add_nn_hamiltonian(1, sx, sx * 0.5)
+            # an antisymmetric exchange D (sx sy - sy sx): Hermitian, but not a real-symmetric two-site operator
+            chain.add_nn_hamiltonian(0, sx, sy * 0.4)
+            chain.add_nn_hamiltonian(0, sy, sx * (-0.4))
             if cfg["sys"] == "defective":
                 chain.add_site_dissipation(1, lad1, 0.8)
                 chain.add_site_dissipation(1, lad2, 0.8)
